@@ -448,8 +448,8 @@ def case_containers(ctx, rng):
                     arr[1, i_] = objs[-1 - i_]
                 fn(arr, **kw)
             elif form == 'Corr':
-                if len(set(tuple(sorted(o.names)) for o in objs)) > 1:
-                    objs = [o for tag, o in pick if tag != 'other'] or [o1]
+                # the entries of a correlator must live on the same chains and configurations: the unrelated member stays out
+                objs = [o for tag, o in pick if tag != 'other'] or [o1]
                 pe.Corr(objs).gamma_method(**kw)
             else:
                 objs = objs[:2] if len(objs) >= 2 else [objs[0], objs[0]]
